@@ -399,7 +399,11 @@ func init() {
 func genDLarge(r *rng, dd bool, id string, cnt counters, emit func(line, out string)) *dExec {
 	type geo struct{ w, b int }
 	g := []geo{{0, 0}, {40000, 40000 + r.rangeIn(1, 20)}, {65536, 131072}, {65535, 65536 + r.rangeIn(1, 9)},
-		{300000, 300000 + r.rangeIn(1, 500000)}, {1 << 20, 2 << 20}, {5000, 5000 + r.rangeIn(1, 3)}}[r.intn(7)]
+		{300000, 300000 + r.rangeIn(1, 500000)}, {1 << 20, 2 << 20}, {5000, 5000 + r.rangeIn(1, 3)},
+		{4200 + r.intn(3000), 0}}[r.intn(8)]
+	if g.b == 0 && g.w >= 4200 {
+		g.b = g.w + 1 // the tightest buffer above 4 KiB: every byte written goes through shrink and flush
+	}
 	var header string
 	if dd {
 		header = fmt.Sprintf("S %s DD %d %d 0 -", id, g.w, g.b)
@@ -443,7 +447,12 @@ func genDLarge(r *rng, dd bool, id string, cnt counters, emit func(line, out str
 				n = budget
 			}
 			if dd && room < 256 && n > 200*room {
-				n = 200 * room // a Decoder feeds its buffer in chunks of BufferSize-WindowSize: keep the model fast
+				// a Decoder feeds its buffer in chunks of BufferSize-WindowSize: keep the model fast
+				if B <= 10000 {
+					n = min(n, B+100) // small enough to be filled completely chunk by chunk
+				} else {
+					n = 200 * room
+				}
 			}
 			do("w " + pay(n))
 			budget -= n
